@@ -55,11 +55,11 @@ def events(ctx):
             p = rand_params(rng, 3)
             p[f] = v
             yield record("tc.rt", {"p": p, "sfx": [], "via": "ctor"})
-    for _ in range(ctx.q(6000, 300000)):
+    for _ in range(ctx.q(20000, 1000000)):
         sfx = [] if rng.random() < 0.6 else [rng.randrange(256) for _ in range(rng.randrange(1, 20))]
         yield record("tc.rt", {"p": rand_params(rng), "sfx": sfx, "via": rng.choice(["ctor", "ctor", "sph", "composite", "setter"])})
     # raw strings: random, valid packets with mutated octets, random declared lengths with matching CRC
-    for _ in range(ctx.q(6000, 200000)):
+    for _ in range(ctx.q(20000, 600000)):
         kind = rng.randrange(4)
         if kind == 0:
             b = [rng.randrange(256) for _ in range(rng.choice([0, 3, 6, 11, 12, 13, 14, 20]))]
